@@ -1498,7 +1498,7 @@ impl<'fd, B: BufSlice<N>, const N: usize> SendAllVectored<'fd, B, N> {
                 this.send
                     .fut
                     .state
-                    .reset(resources, (this.send_op, SendFlag(0)));
+                    .reset(resources, (this.send_op, this.flags));
                 unsafe { Pin::new_unchecked(this) }.poll_inner(ctx)
             }
             Poll::Ready(Err(err)) => Poll::Ready(Err(err)),
